@@ -100,7 +100,7 @@ Definition spec_sym (i o : term) : bool :=
   if negb (String.eqb (gs (gn o 0)) "ok") then false          (* a panic is never acceptable *)
   else
     let p' := profile_of (gn o 2) in
-    frame_okb p p' && lines_attachedb p p' &&
+    frame_okb p p' && lines_attachedb p p' && flags_raisedb p p' &&
     (force_requested (in_mode i) || left_aloneb p p') &&
     (negb (check_valid p && id_headroomb p p') || (check_valid p' && gb (gn o 3))) &&
     (negb (filter_tables_nonempty i) || names_keptb p p').
